@@ -193,33 +193,23 @@ theorem inttype_ok (sc : Bool) (v : Nat) (hv : v < 2 ^ 64) (decimal : Bool) (s :
 /-- the part of `typecommonreal` after the promotions -/
 def crTail (sc : Bool) (p1 p2 : ATy) : Option ATy :=
   if p1 = p2 then some p1
-  else if p1.issigned sc = p2.issigned sc then
-    some (if p1.rank > p2.rank then p1 else p2)
   else
-    let u := if p1.issigned sc then p2 else p1
-    let s := if p1.issigned sc then p1 else p2
-    if u.rank ≥ s.rank then some u
-    else if u.size < s.size then some s
-    else if s = tLong then some tULong
-    else if s = tLLong then some tULLong
-    else none
-
-/-- the part of `usualArith` after the promotions -/
-def uaTail (cs : Bool) (p1 p2 r : ATy) : Bool :=
-  if p1 = p2 then r == p1
-  else
-    let s1 := isSigned cs (intTypeOf p1)
-    let s2 := isSigned cs (intTypeOf p2)
-    if s1 = s2 then
-      if Spec.rank p1 > Spec.rank p2 then r == p1
-      else if Spec.rank p2 > Spec.rank p1 then r == p2
-      else r == p1 || r == p2
+    let p1 := p1.stripEnum
+    let p2 := p2.stripEnum
+    if p1.issigned sc = p2.issigned sc then
+      some (if p1.rank > p2.rank then p1 else p2)
     else
-      let u := if s1 then p2 else p1
-      let s := if s1 then p1 else p2
-      if Spec.rank u ≥ Spec.rank s then r == u
-      else if canRepresentAll cs (intTypeOf s) (range cs u) then r == s
-      else r == .basic (unsignedOf (intTypeOf s))
+      let u := if p1.issigned sc then p2 else p1
+      let s := if p1.issigned sc then p1 else p2
+      if u.rank ≥ s.rank then some u
+      else if u.size < s.size then some s
+      else if s = tLong then some tULong
+      else if s = tLLong then some tULLong
+      else none
+
+/-- the part of `commonReal` after the promotions -/
+def uaTail (cs : Bool) (p1 p2 : ATy) : ATy :=
+  if p1 = p2 then p1 else .basic (commonRealB cs (intTypeOf p1) (intTypeOf p2))
 
 def NotFloat (t : ATy) : Prop := t ≠ .basic .float ∧ t ≠ .basic .double ∧ t ≠ .basic .ldouble
 
@@ -229,11 +219,11 @@ theorem typecommonreal_tail (sc : Bool) (t1 t2 : ATy) (w1 w2 : Option Nat) (h1 :
   obtain ⟨b1, b2, b3⟩ := h2
   simp only [typecommonreal, crTail, a1, a2, a3, b1, b2, b3, or_self, if_false]
 
-theorem usualArith_tail (cs : Bool) (t1 t2 r : ATy) (w1 w2 : Option Nat) (h1 : NotFloat t1) (h2 : NotFloat t2) :
-    usualArith cs t1 w1 t2 w2 r = uaTail cs (intPromote cs t1 w1) (intPromote cs t2 w2) r := by
+theorem commonReal_tail (cs : Bool) (t1 t2 : ATy) (w1 w2 : Option Nat) (h1 : NotFloat t1) (h2 : NotFloat t2) :
+    commonReal cs t1 w1 t2 w2 = uaTail cs (intPromote cs t1 w1) (intPromote cs t2 w2) := by
   obtain ⟨a1, a2, a3⟩ := h1
   obtain ⟨b1, b2, b3⟩ := h2
-  simp only [usualArith, uaTail, a1, a2, a3, b1, b2, b3, or_self, if_false]
+  simp only [commonReal, uaTail, a1, a2, a3, b1, b2, b3, or_self, if_false]
 
 /-- what the integer promotions can produce -/
 inductive Promoted : ATy → Prop
@@ -273,25 +263,14 @@ theorem intPromote_promoted (cs : Bool) (t : ATy) (w : Option Nat) (hi : isInteg
            simp [canRep_01_int, canRep_int_signed _ _ h1, canRep_int_unsigned, canRep_uint_signed, canRep_uint_unsigned]
            (repeat' split) <;> first | constructor | (exfalso; omega))
 
-/-- no enumerated type over `long long` (cproc's `typecommonreal` compares `t2 == &typellong`) -/
-def NoLLEnum : ATy → Prop
-  | .enum _ .llong => False
-  | _ => True
+macro "tail_simp" : tactic => `(tactic| simp [crTail, uaTail, commonRealB, ATy.stripEnum, ATy.issigned, Basic.issigned,
+    Basic.issignedInit, ATy.rank, Basic.kind, Kind.rank, ATy.size, Basic.size, isSigned, intTypeOf, rankB,
+    canRepresentAll, rangeB, rangeBits, bits, unsignedOf])
 
-def okOpt : Option ATy → (ATy → Bool) → Bool
-  | some r, f => f r
-  | none, _ => false
-
-macro "tail_simp" : tactic => `(tactic| simp [okOpt, crTail, uaTail, ATy.issigned, Basic.issigned, Basic.issignedInit,
-    ATy.rank, Basic.kind, Kind.rank, ATy.size, Basic.size, isSigned, intTypeOf, Spec.rank, rankB,
-    canRepresentAll, range, rangeB, rangeBits, bits, unsignedOf])
-
-theorem tail_ok (sc : Bool) {p1 p2 : ATy} (h1 : Promoted p1) (h2 : Promoted p2) (n1 : NoLLEnum p1)
-    (n2 : NoLLEnum p2) : okOpt (crTail sc p1 p2) (uaTail sc p1 p2) = true := by
+theorem tail_ok (sc : Bool) {p1 p2 : ATy} (h1 : Promoted p1) (h2 : Promoted p2) :
+    crTail sc p1 p2 = some (uaTail sc p1 p2) := by
   cases h1 <;> cases h2 <;> cases sc <;>
     first
-    | (simp [NoLLEnum] at n1; done)
-    | (simp [NoLLEnum] at n2; done)
     | (tail_simp; done)
     | (rename_i i j
        by_cases hij : i = j
@@ -315,33 +294,22 @@ theorem promote_int (cs : Bool) (t : ATy) (w : Option Nat) (h : NotFloat t) (hi 
     promote cs t w = intPromote cs t w := by
   simp [promote, h.1, hi]
 
-theorem intPromote_noLL (cs : Bool) (t : ATy) (w : Option Nat) (h : NoLLEnum t) : NoLLEnum (intPromote cs t w) := by
-  unfold intPromote
-  cases w <;> simp only <;> (repeat' split) <;> first | exact h | trivial
-
 theorem commonreal_ok (sc : Bool) (t1 t2 : ATy) (w1 w2 : Option Nat) (f1 : t1.wf = true) (f2 : t2.wf = true)
-    (hw1 : validWidth t1 w1) (hw2 : validWidth t2 w2) (n1 : NoLLEnum t1) (n2 : NoLLEnum t2) :
-    okOpt (typecommonreal sc t1 w1 t2 w2) (usualArith sc t1 w1 t2 w2) = true := by
+    (hw1 : validWidth t1 w1) (hw2 : validWidth t2 w2) :
+    typecommonreal sc t1 w1 t2 w2 = some (commonReal sc t1 w1 t2 w2) := by
   by_cases hl : t1 = .basic .ldouble ∨ t2 = .basic .ldouble
-  · simp [typecommonreal, usualArith, hl, okOpt]
+  · simp [typecommonreal, commonReal, hl]
   by_cases hd : t1 = .basic .double ∨ t2 = .basic .double
-  · simp [typecommonreal, usualArith, hl, hd, okOpt]
+  · simp [typecommonreal, commonReal, hl, hd]
   by_cases hf : t1 = .basic .float ∨ t2 = .basic .float
-  · simp [typecommonreal, usualArith, hl, hd, hf, okOpt]
+  · simp [typecommonreal, commonReal, hl, hd, hf]
   have nf1 : NotFloat t1 := ⟨fun h => hf (Or.inl h), fun h => hd (Or.inl h), fun h => hl (Or.inl h)⟩
   have nf2 : NotFloat t2 := ⟨fun h => hf (Or.inr h), fun h => hd (Or.inr h), fun h => hl (Or.inr h)⟩
   have i1 := isIntegerTy_of_notFloat t1 f1 nf1
   have i2 := isIntegerTy_of_notFloat t2 f2 nf2
   rw [typecommonreal_tail sc t1 t2 w1 w2 nf1 nf2, promote_ok sc t1 w1 f1 hw1, promote_ok sc t2 w2 f2 hw2,
-    promote_int sc t1 w1 nf1 i1, promote_int sc t2 w2 nf2 i2]
-  have e : usualArith sc t1 w1 t2 w2 = uaTail sc (intPromote sc t1 w1) (intPromote sc t2 w2) :=
-    funext (fun r => usualArith_tail sc t1 t2 r w1 w2 nf1 nf2)
-  rw [e]
+    promote_int sc t1 w1 nf1 i1, promote_int sc t2 w2 nf2 i2, commonReal_tail sc t1 t2 w1 w2 nf1 nf2]
   exact tail_ok sc (intPromote_promoted sc t1 w1 i1 hw1) (intPromote_promoted sc t2 w2 i2 hw2)
-    (intPromote_noLL sc t1 w1 n1) (intPromote_noLL sc t2 w2 n2)
-
-/-- the case cproc cannot handle: `enum E : long long` with `unsigned long` -/
-theorem commonreal_counter : typecommonreal false (.enum 0 .llong) none (.basic .ulong) none = none := by decide
 
 /-! ### `typecompatible` -/
 
@@ -524,7 +492,7 @@ theorem compatible_iff (a b : Ty) : compatible a b = true ↔ Compat a b := by
 /-- operands the typing theorems talk about -/
 def OperandOk (o : Operand) : Prop :=
   match o.ty with
-  | .arith a => a.wf = true ∧ validWidth a o.width ∧ NoLLEnum a
+  | .arith a => a.wf = true ∧ validWidth a o.width
   | _ => True
 
 def okOptT : Option Ty → (Ty → Bool) → Bool
@@ -537,12 +505,8 @@ theorem commonreal_some (sc : Bool) (l r : Operand) (a b : ATy) (hl : l.ty = .ar
       usualArith sc a l.width b r.width c = true := by
   simp only [OperandOk, hl] at ol
   simp only [OperandOk, hr] at or'
-  have h := commonreal_ok sc a b l.width r.width ol.1 or'.1 ol.2.1 or'.2.1 ol.2.2 or'.2.2
-  cases hc : typecommonreal sc a l.width b r.width with
-  | none => simp [hc, okOpt] at h
-  | some c =>
-    simp only [hc, okOpt] at h
-    exact ⟨c, by simp [commonreal, hl, hr, hc], h⟩
+  have h := commonreal_ok sc a b l.width r.width ol.1 or'.1 ol.2 or'.2
+  exact ⟨commonReal sc a l.width b r.width, by simp [commonreal, hl, hr, h], by simp [usualArith]⟩
 
 theorem binop_arith (sc : Bool) (op : BinOp) (l r : Operand) (ol : OperandOk l) (or' : OperandOk r)
     (t : Ty) (h : arithOk sc l r t = true) :
@@ -629,7 +593,7 @@ theorem binop_shift (sc : Bool) (l r : Operand) (ol : OperandOk l) (t : Ty) (op 
   have i2 := isInt_of_isIntegerT _ hbi.2
   have hia : isIntegerTy a = true := by simpa [isIntegerT, hl] using hbi.1
   simp only [OperandOk, hl] at ol
-  have hp := typepromote_int sc a l.width ol.1 ol.2.1 hia
+  have hp := typepromote_int sc a l.width ol.1 ol.2 hia
   have i1' : (Ty.arith a).isInt = true := hl ▸ i1
   rcases hop with rfl | rfl <;>
     simp [binopType, i1, i1', i2, exprpromote, hl, okOptT, exprconvert_ty_arith l a _ hl, hp, h]
@@ -855,6 +819,68 @@ theorem cond_const_arith (sc : Bool) (c l r : Operand) (ol : OperandOk l) (or' :
     have e1 := exprconvert_ty_arith l a x hl
     have e2 := exprconvert_ty_arith r b x hr
     cases v <;> simp [condType, hl, hr, Ty.isArith, hx, hc, exprconvert_ty_arith _ x x e1, exprconvert_ty_arith _ x x e2]
+
+/-! ### uniqueness of the operator result type -/
+
+theorem arithOk_unique {sc : Bool} {l r : Operand} {t t' : Ty} (h : arithOk sc l r t = true)
+    (h' : arithOk sc l r t' = true) : t = t' := by
+  unfold arithOk at h h'
+  split at h
+  · rename_i _ _ _ a b c hl hr
+    split at h'
+    · rename_i _ _ _ a' b' c' hl' hr'
+      rw [hl] at hl'; rw [hr] at hr'
+      cases hl'; cases hr'
+      simp only [usualArith, beq_iff_eq] at h h'
+      rw [h, h']
+    · simp at h'
+  · simp at h
+
+theorem binopOk_unique (sc : Bool) (op : BinOp) (l r : Operand) (t t' : Ty)
+    (h : binopOk sc op l r t = true) (h' : binopOk sc op l r t' = true) : t = t' := by
+  cases op <;> simp only [binopOk, Bool.and_eq_true, Bool.or_eq_true, beq_iff_eq] at h h'
+  case lor => rw [h.2, h'.2]
+  case land => rw [h.2, h'.2]
+  case eql => rw [h.1, h'.1]
+  case neq => rw [h.1, h'.1]
+  case less => rw [h.1, h'.1]
+  case greater => rw [h.1, h'.1]
+  case leq => rw [h.1, h'.1]
+  case geq => rw [h.1, h'.1]
+  case bor => exact arithOk_unique h.2 h'.2
+  case xor => exact arithOk_unique h.2 h'.2
+  case band => exact arithOk_unique h.2 h'.2
+  case mod => exact arithOk_unique h.2 h'.2
+  case mul => exact arithOk_unique h h'
+  case div => exact arithOk_unique h h'
+  case shl =>
+    cases hl : l.ty <;> simp [hl] at h h'
+    rw [h.2, h'.2]
+  case shr =>
+    cases hl : l.ty <;> simp [hl] at h h'
+    rw [h.2, h'.2]
+  case add =>
+    rcases h with (h | h) | h <;> rcases h' with (h' | h') | h'
+    · exact arithOk_unique h h'
+    · have := arithOk_shapes h; cases hl : l.ty <;> simp_all [ptrToCompleteObject, Ty.isArith]
+    · have := arithOk_shapes h; cases hr : r.ty <;> simp_all [ptrToCompleteObject, Ty.isArith]
+    · have := arithOk_shapes h'; cases hl : l.ty <;> simp_all [ptrToCompleteObject, Ty.isArith]
+    · rw [h.2, h'.2]
+    · cases hl : l.ty <;> simp_all [ptrToCompleteObject, isIntegerT]
+    · have := arithOk_shapes h'; cases hr : r.ty <;> simp_all [ptrToCompleteObject, Ty.isArith]
+    · cases hl : l.ty <;> simp_all [ptrToCompleteObject, isIntegerT]
+    · rw [h.2, h'.2]
+  case sub =>
+    rcases h with (h | h) | h <;> rcases h' with (h' | h') | h'
+    · exact arithOk_unique h h'
+    · have := arithOk_shapes h; cases hl : l.ty <;> simp_all [ptrToCompleteObject, Ty.isArith]
+    · have := arithOk_shapes h; cases hl : l.ty <;> cases hr : r.ty <;> simp_all [ptrToCompleteObject, Ty.isArith]
+    · have := arithOk_shapes h'; cases hl : l.ty <;> simp_all [ptrToCompleteObject, Ty.isArith]
+    · rw [h.2, h'.2]
+    · cases hl : l.ty <;> cases hr : r.ty <;> simp_all [ptrToCompleteObject, isIntegerT]
+    · have := arithOk_shapes h'; cases hl : l.ty <;> cases hr : r.ty <;> simp_all [ptrToCompleteObject, Ty.isArith]
+    · cases hl : l.ty <;> cases hr : r.ty <;> simp_all [ptrToCompleteObject, isIntegerT]
+    · cases hl : l.ty <;> cases hr : r.ty <;> simp_all [ptrToCompleteObject, isIntegerT]
 
 /-! ### misc -/
 
